@@ -395,12 +395,25 @@ func roundtripReplay(args []string) {
 		}
 
 		// the same document with further members whose values are null / empty
-		{
+		// (in three variants: top-level nulls / empties only, nested nulls only, everything)
+		for variant := 0; variant < 3; variant++ {
 			dn := deepCopyGeneric(generic(dj)).(map[string]interface{})
-			dn["zz-null"] = nil
-			dn["zz-empty-list"] = []interface{}{}
-			dn["zz-empty-object"] = map[string]interface{}{}
-			dn["zz-empty-string"] = ""
+
+			if variant != 1 {
+				dn["zz-null"] = nil
+				dn["zz-empty-list"] = []interface{}{}
+				dn["zz-empty-object"] = map[string]interface{}{}
+				dn["zz-empty-string"] = ""
+			}
+
+			if variant != 0 {
+				// ... nulls below the top level, and members under the names that resolved documents use
+				dn["zz-nested"] = map[string]interface{}{"nickname": nil, "list": []interface{}{"a", nil, "b"}, "deep": map[string]interface{}{"x": nil}}
+				dn["verificationMethod"] = []interface{}{env.keyJSON(CEnt{ID: 8, Ver: 1}), map[string]interface{}{"id": "vm1"}}
+				dn["authentication"] = []interface{}{"k1"}
+				// (no name that BEGINS with publicKey / service: the json patch validator refuses those by prefix)
+			}
+
 			rawN, _ := json.Marshal(dn)
 
 			pn, en := patch.PatchesFromDocument(string(rawN))
